@@ -87,9 +87,37 @@ func verifyFunction(w *World, specs *Specs, tt *TypeTable, fn *ssa.Function, c *
 	for _, r := range vc.effective.Requires {
 		st.assume = append(st.assume, vc.trClause(env, r))
 	}
+	vc.buildProbes(st, env)
 	vc.cover(st, "requires-satisfiable", posString(w, fn.Pos()), vc.effective.Props)
 	vc.execFrom(st, fn.Blocks[0], nil)
 	return res
+}
+
+// buildProbes evaluates the probe expressions of the contract (and one automatic probe per scalar parameter) in the
+// entry state.
+func (vc *VC) buildProbes(st *State, env *Env) {
+	for _, p := range vc.fn.Params {
+		v := st.vals[p]
+		switch sortOf(p.Type()) {
+		case "Int", "Bool", "Str":
+			vc.probes = append(vc.probes, Probe{Name: "param_" + p.Name(), Term: v.T})
+		case "Slice":
+			vc.probes = append(vc.probes, Probe{Name: "len_" + p.Name(), Term: app("slen", v.T)})
+		case "Iface":
+			vc.probes = append(vc.probes, Probe{Name: "isnil_" + p.Name(), Term: eq(v.T, "iface_nil")})
+		}
+	}
+	for _, pd := range vc.effective.Probes {
+		if pd.IndexVar == "" {
+			vc.probes = append(vc.probes, Probe{Name: pd.Name, Term: env.tr(pd.Expr).T})
+			continue
+		}
+		for k := 0; k < pd.N; k++ {
+			ce := env.child()
+			ce.vars[pd.IndexVar] = TV{T: intLit(int64(k)), S: stInt}
+			vc.probes = append(vc.probes, Probe{Name: fmt.Sprintf("%s_%d", pd.Name, k), Term: ce.tr(pd.Expr).T})
+		}
+	}
 }
 
 // typeParamsOf maps the type parameter names of a generic function (or of its receiver) to themselves.
